@@ -409,11 +409,11 @@ next_loop_unlocked:
 	if (ret == LZMA_OK) {
 		if (partial_update != PARTIAL_DISABLED) {
 			// The main thread uses thr->mutex to change from
-			// PARTIAL_DISABLED to PARTIAL_START. The main thread
-			// doesn't care about this variable after that so we
-			// can safely change it here to PARTIAL_ENABLED
-			// without a mutex.
-			thr->partial_update = PARTIAL_ENABLED;
+			// PARTIAL_DISABLED to PARTIAL_START. After that the
+			// main thread only reads this variable, and it does
+			// so while holding coder->mutex (see
+			// read_output_and_wait()), so the change to
+			// PARTIAL_ENABLED is done under coder->mutex below.
 
 			// The main thread is reading decompressed data
 			// from thr->outbuf. Tell the main thread about
@@ -425,6 +425,7 @@ next_loop_unlocked:
 			// it is possible that neither in_pos nor out_pos has
 			// changed.
 			mythread_sync(thr->coder->mutex) {
+				thr->partial_update = PARTIAL_ENABLED;
 				thr->outbuf->pos = thr->out_pos;
 				thr->outbuf->decoder_in_pos = thr->in_pos;
 				mythread_cond_signal(&thr->coder->cond);
